@@ -129,6 +129,8 @@ contract('biogeme.tools.files.create_backup', 'C14',
                                      + _BACKUP.replace('NUM', 'j') + ")), ty='int'), ty='int'))",
              # the original is gone iff it was renamed (a copy keeps it)
              'original_moved_iff_rename': "implies(old(fs_is_file(filename)), fs_is_file(filename) == (not rename))",
+             # the backup holds what the original held (rename / copy carry the content)
+             'backup_has_the_content': "implies(old(fs_is_file(filename)), fs_content(typed(result, 'str')) == old(fs_content(filename)))",
              'only_backup_changes': "forall(lambda p: implies(p != filename and not same(p, result), fs_is_file(p) == old(fs_is_file(p))), ty='str')",
          },
          invariants={1: {'clauses': {
